@@ -90,6 +90,19 @@ fn make_escape_texts() -> Vec<String> {
     for n in ["''300''", "''-1''", "''256''", "''255 0''", "''1.5''", "''0x''", "''016_ff''", "''99999999999''", "'' ''", "''a''"] {
         v.push(n.to_string());
     }
+    // jump-heavy programs: long chains of logical operators, else-chains and nested expressions (more jump-table
+    // entries than instructions early in the build), with short and long constants
+    for n in 2..=9usize {
+        for (op, atom) in [("&&", "1"), ("||", "a"), ("&&", "\"abcdefgh\""), ("||", ":sym")] {
+            let items: Vec<String> = (0..n).map(|k| if k % 2 == 0 { atom.to_string() } else { format!("{}", k) }).collect();
+            v.push(items.join(&format!(" {} ", op)));
+            v.push(format!("a {} {}", op, items.join(&format!(" {} ", op))));
+        }
+        let arms: Vec<String> = (0..n).map(|k| format!("c{} ?> \"value number {}\"", k, k)).collect();
+        v.push(format!("{} |> 0", arms.join(" |> ")));
+        v.push((0..n).map(|k| format!("{{ {} + $ }}", k)).collect::<Vec<_>>().join(" "));
+        v.push((0..n).map(|k| format!(":k{} = {{ $ && {} }}", k, k)).collect::<Vec<_>>().join(", "));
+    }
     for n in ["99999999999", "1e400", "1.0e400", "0.0e0", "036_zz", "037_1", "01_1", "02_2", "0_", "1_", "1__2", "1.2.3", "1..2", ".5", "5.", "1e", "1e+", "0b1", "0x1f"] {
         v.push(n.to_string());
     }
@@ -749,7 +762,11 @@ fn preload<D: Subject>(d: &mut D) {
 }
 
 fn build_and_check<D: Subject>(pr: &ParseResult, pre: bool, o: &mut Outcome, want_c05: bool) -> Result<(), Fail> {
-    let mut d = D::fresh(Host::none());
+    build_and_check_in::<D>(pr, pre, false, o, want_c05)
+}
+
+fn build_and_check_in<D: Subject>(pr: &ParseResult, pre: bool, tight: bool, o: &mut Outcome, want_c05: bool) -> Result<(), Fail> {
+    let mut d = if tight { D::fresh_tight(Host::none()) } else { D::fresh(Host::none()) };
     if pre {
         preload(&mut d);
     }
@@ -763,7 +780,7 @@ fn build_and_check<D: Subject>(pr: &ParseResult, pre: bool, o: &mut Outcome, wan
     if want_c05 && o.c05.is_none() {
         match guard(|| check_stream(&d, &before, &bd, pr.get_nodes().len())) {
             Ok(Ok(())) => {}
-            Ok(Err(m)) => o.c05 = Some((format!("{}{}", D::NAME, if pre { "+preloaded" } else { "" }), m)),
+            Ok(Err(m)) => o.c05 = Some((format!("{}{}{}", D::NAME, if pre { "+preloaded" } else { "" }, if tight { "+tight-storage" } else { "" }), m)),
             Err(p) => o.c05 = Some((D::NAME.to_string(), Malformed(format!("checker-panic[{}]", p)))),
         }
     }
@@ -799,6 +816,8 @@ pub fn run_text(text: &str, want_c05: bool) -> Outcome {
         if want_c05 {
             build_and_check::<SData>(&pr, true, &mut o, want_c05)?;
             build_and_check::<BData>(&pr, true, &mut o, want_c05)?;
+            // BasicGarnishData whose blocks have different tiny sizes and grow cell by cell (heap re-laid out on every push)
+            build_and_check_in::<BData>(&pr, true, true, &mut o, want_c05)?;
         }
         o.accepted = true;
         Ok(())
@@ -1026,7 +1045,7 @@ impl Property for C03 {
     }
     fn meta(&self, tier: Tier) -> Meta {
         Meta {
-            rule: format!("K1: every sequence of 32 token classes (one representative spelling each: values, prefix/suffix/binary operators, brackets, separators, apply-by-identifier forms, annotations) of length <= 3 with every choice of 'nothing or one space' between neighbours, length 4 over {}; K2: every string over a 43-symbol alphabet (one per lexer character class plus 2-, 2- and 4-byte characters, form feed and NUL) of length <= {}; K3: 40 scaling families at 64..1024 repetitions; K4 (small-scope tiers, every spacing choice as in K1): length 5 over {} classes, length 6 over {} classes{} drawn from number, prefix, suffix and infix operator, comma, blank line and the three bracket kinds; K6: without spaces, length 6 over 13 classes (one per class the parser distinguishes: value, prefix, suffix, left-to-right / right-to-left / optional binary operator, three bracket kinds, blank line), length 7 over 9 of them (thorough: all 13, and length 8 over 9); K8: escape sequences and number spellings at the boundaries of what literals can denote; K5: length 5{} over the 10 jump-making classes (number, prefix and infix operator, ?>, |>, &&, parentheses, braces); the well-formed programs of the C01 corpora. Each input goes through lex, parse, a structural tree check, then build into SimpleGarnishData and BasicGarnishData. Verdict: no stage panics, aborts, overflows the stack or exceeds its wall budget (supervisor-confirmed), parse never returns a result whose child links contain a cycle (build would not terminate on it - such a result is not handed to build; results with orphan, shared or out-of-range children are built under the panic guard), K3 time <= 50 ms + 3 us * n^2. Non-trivial = input that gets past lex; distinct by text.", tier.pick("a 16-class core", "all 32 classes"), tier.pick(3, 4), tier.pick(10, 12), tier.pick(8, 10), tier.pick("", ", length 7 over 8 classes,"), tier.pick("", " and 6")),
+            rule: format!("K1: every sequence of 32 token classes (one representative spelling each: values, prefix/suffix/binary operators, brackets, separators, apply-by-identifier forms, annotations) of length <= 3 with every choice of 'nothing or one space' between neighbours, length 4 over {}; K2: every string over a 43-symbol alphabet (one per lexer character class plus 2-, 2- and 4-byte characters, form feed and NUL) of length <= {}; K3: 40 scaling families at 64..1024 repetitions; K4 (small-scope tiers, every spacing choice as in K1): length 5 over {} classes, length 6 over {} classes{} drawn from number, prefix, suffix and infix operator, comma, blank line and the three bracket kinds; K6: without spaces, length 6 over 13 classes (one per class the parser distinguishes: value, prefix, suffix, left-to-right / right-to-left / optional binary operator, three bracket kinds, blank line), length 7 over 9 of them (thorough: all 13, and length 8 over 9); K8: escape sequences and number spellings at the boundaries of what literals can denote, and jump-heavy programs (chains of 2-9 logical operators, else-chain arms, nested expressions); K5: length 5{} over the 10 jump-making classes (number, prefix and infix operator, ?>, |>, &&, parentheses, braces); the well-formed programs of the C01 corpora. Each input goes through lex, parse, a structural tree check, then build into SimpleGarnishData and BasicGarnishData. Verdict: no stage panics, aborts, overflows the stack or exceeds its wall budget (supervisor-confirmed), parse never returns a result whose child links contain a cycle (build would not terminate on it - such a result is not handed to build; results with orphan, shared or out-of-range children are built under the panic guard), K3 time <= 50 ms + 3 us * n^2. Non-trivial = input that gets past lex; distinct by text.", tier.pick("a 16-class core", "all 32 classes"), tier.pick(3, 4), tier.pick(10, 12), tier.pick(8, 10), tier.pick("", ", length 7 over 8 classes,"), tier.pick("", " and 6")),
             assumptions: vec![
                 "a parse result whose child links contain a cycle is reported as a totality violation without executing build on it (build follows child links with a work stack and cannot terminate on a cycle)".into(),
                 "the polynomial-time clause is checked only as a blunt quadratic wall-clock bound on 40 repeat families; a change of exponent below that is not detected".into(),
@@ -1163,7 +1182,7 @@ impl Property for C05 {
         let o = run_text(&text, true);
         if o.accepted {
             cx.count("accepted", 1);
-            cx.count("builds_checked", 4);
+            cx.count("builds_checked", 5);
             cx.nontrivial(&text);
         }
         if let Some(kind) = c05_kind_o(&o) {
@@ -1181,7 +1200,7 @@ impl Property for C05 {
     fn meta(&self, tier: Tier) -> Meta {
         let s = spaces(tier);
         Meta {
-            rule: format!("every input of the C03 corpora that the pipeline accepts plus the {} programs of the C01 corpora, each built four times: into a fresh SimpleGarnishData / BasicGarnishData and into objects pre-loaded with 7 foreign instructions, 3 jump entries and 5 constants. Oracle per instruction: operand present iff required, data operands in range and naming a value of the required kind, jump operands and expression values naming a jump entry appended by this build, every appended jump entry pointing at an instruction emitted by this build (a surviving 0 placeholder is foreign in the pre-loaded object), last instruction is EndExpression or JumpTo, the instruction before every block entry (build entry, target of JumpIfTrue/JumpIfFalse/And/Or, body of an expression value) is EndExpression or JumpTo, one metadata record per emitted instruction naming an existing node. Non-trivial = accepted input; distinct by text.", s.total()),
+            rule: format!("every input of the C03 corpora that the pipeline accepts plus the {} programs of the C01 corpora, each built five times: into a fresh SimpleGarnishData / BasicGarnishData, into objects pre-loaded with 7 foreign instructions, 3 jump entries and 5 constants, and into a pre-loaded BasicGarnishData whose storage blocks have different tiny sizes and grow one to three cells at a time. Oracle per instruction: operand present iff required, data operands in range and naming a value of the required kind, jump operands and expression values naming a jump entry appended by this build, every appended jump entry pointing at an instruction emitted by this build (a surviving 0 placeholder is foreign in the pre-loaded object), last instruction is EndExpression or JumpTo, the instruction before every block entry (build entry, target of JumpIfTrue/JumpIfFalse/And/Or, body of an expression value) is EndExpression or JumpTo, one metadata record per emitted instruction naming an existing node. Non-trivial = accepted input; distinct by text.", s.total()),
             assumptions: vec!["'every straight-line run ends in a terminator' is checked as: the stream's last instruction is a terminator and so is the instruction before every block entry (entry point, conditional-jump target, expression body); a jump entry used only by JumpTo is a join point inside a run".into()],
             trusted_base: vec!["engine/src/props/pipeline.rs check_stream, operand_kind table".into()],
             explanation: "bounded-exhaustive enumeration with a well-formedness oracle on the built instruction stream".into(),
